@@ -73,12 +73,20 @@ class Project(object):
     def check_changes(self):
         # type: () -> t.Iterator[None]
         self._context_cache.clear()
-        if any(m.changed for m in self._module_cache.values()) or self._appeared():
+        if (any(m.changed for m in self._module_cache.values()) or self._appeared()
+                or self._renormed()):
             # cached analyses hold references into each other (star imports,
             # resolved imported names), so a change anywhere drops them all
             self._module_cache.clear()
             self._missing.clear()
+            self._norm_cache.clear()
         yield
+
+    def _renormed(self):
+        # type: () -> bool
+        """A directory relative imports were resolved against belongs to another package now"""
+        return any(self._package_parts(root) != parts
+                   for root, parts in self._norm_cache.items())
 
     def _appeared(self):
         # type: () -> bool
@@ -153,6 +161,15 @@ class Project(object):
         self._module_cache[name] = module
         return module
 
+    def _package_parts(self, root):
+        # type: (str) -> list[str]
+        """Names of the packages the directory root is nested in, outermost first"""
+        parts = []  # type: list[str]
+        while os.path.exists(os.path.join(root, '__init__.py')) and os.path.dirname(root) != root:
+            parts.insert(0, os.path.basename(root))
+            root = os.path.dirname(root)
+        return parts
+
     def norm_package(self, package, filename):
         # type: (str, str) -> str
         if not package.startswith('.'):
@@ -162,22 +179,13 @@ class Project(object):
         for _ in range(len(package) - len(package.lstrip('.'))):
             root = os.path.dirname(root)
 
-        key = root
         try:
-            parts = self._norm_cache[key]
+            parts = self._norm_cache[root]
         except KeyError:
-            parts = []
-            while True:
-                if os.path.exists(os.path.join(root, '__init__.py')):
-                    parts.insert(0, os.path.basename(root))
-                    root = os.path.dirname(root)
-                else:
-                    break
+            parts = self._norm_cache[root] = self._package_parts(root)
 
-            if not parts:
-                raise ImportError('Not a package: {} ({})'.format(filename, package))
-
-            self._norm_cache[key] = parts
+        if not parts:
+            raise ImportError('Not a package: {} ({})'.format(filename, package))
 
         package = package.lstrip('.')
         if package:
